@@ -24,8 +24,8 @@ tvars == <<tid, l, s, kf>>
 
 TraceInit == tid = 1 /\ l = 1 /\ s = InitState /\ kf = {}
 
-Verdict(kind, clause) ==
-  PrintT(<<"VERDICT", Traces[tid].id, kind, l, clause,
+Verdict(kind, clause, also) ==
+  PrintT(<<"VERDICT", Traces[tid].id, kind, l, clause, also,
            <<s.st.q, s.st.inv, s.st.invfound, s.st.reuse, s.st.sfail, s.st.commit, s.st.rollback,
              s.st.clean, s.st.refuse, s.st.nestedreuse, s.st.failrec>>, kf >>)
 
@@ -33,13 +33,13 @@ TraceNext ==
   /\ tid <= Len(Traces)
   /\ LET evs == Traces[tid].events IN
      IF l > Len(evs) THEN
-        /\ Verdict("accepted", "")
+        /\ Verdict("accepted", "", {})
         /\ tid' = tid + 1 /\ l' = 1 /\ s' = InitState /\ kf' = {}
      ELSE
         LET e == evs[l]
             c == Check(s, e)
         IN IF c # "" THEN
-              /\ Verdict("rejected", c)
+              /\ Verdict("rejected", c, Fails(s, e))
               /\ tid' = tid + 1 /\ l' = 1 /\ s' = InitState /\ kf' = {}
            ELSE /\ tid' = tid /\ l' = l + 1 /\ s' = Apply(s, e)
                 /\ kf' = IF KnownFinding(s, e) = "" THEN kf ELSE kf \cup {KnownFinding(s, e)}
